@@ -21,6 +21,8 @@ EXTENDS Dispatch
 CONSTANTS MaxBlocks, MaxMatch, MaxIgnore,   \* blocks per configuration, sub-blocks per block
           MaxMatchConds, MaxIgnoreConds,    \* conditions per sub-block
           WithAlt,                          \* BOOLEAN: include regexps with a top-level alternation (a|b)
+          Shared,                           \* BOOLEAN: every block carries the SAME marker check (identical definition, identical
+                                            \*   String()) instead of one marker per block
           Reduced                           \* BOOLEAN: the reduced condition alphabet (4 atoms, one per kind) and canonical
                                             \*   (unordered, duplicate-free) sub-block lists: makes 2+2 sub-blocks and several
                                             \*   blocks exhaustively enumerable
@@ -148,6 +150,13 @@ ImplAppliesFull(c, b, e, command) ==
 
 WithState(e, st) == [e EXCEPT !.state = st]
 
+\* What is observable is the marker CHECK, not the block: a check defined (identically) in several blocks applies to a rule
+\* iff some block that defines it selects the rule; pint runs it once (de-duplication by String() only concerns blocks that
+\* BOTH select the rule).
+SameMarker(bs, b) == {x \in DOMAIN bs : bs[x].marker = bs[b].marker}
+DocMarkerApplies(bs, b, e, command)  == \E x \in SameMarker(bs, b) : DocApplies(bs[x], e, command)
+ImplMarkerApplies(bs, b, e, command) == \E x \in SameMarker(bs, b) : ImplApplies(bs[x], e, command)
+
 -----------------------------------------------------------------------------
 (* State machine that grows a configuration.                                *)
 VARIABLES blocks,   \* finished blocks
@@ -161,7 +170,7 @@ NoSub  == [kind |-> "none", m |-> EmptyMatch, last |-> 0, n |-> 0, want |-> 0, f
 NewCur == [match |-> <<>>, ignore |-> <<>>, lastM |-> -1, lastI |-> -1]
 MarkerName(b) == IF b = 1 THEN "report" ELSE IF b = 2 THEN "mk2" ELSE IF b = 3 THEN "mk3" ELSE "mk4"
 MkBlock(c, b) == [kinds |-> <<>>, enable |-> <<>>, disable |-> <<>>, locked |-> FALSE, match |-> c.match, ignore |-> c.ignore,
-                  marker |-> MarkerName(b)]
+                  marker |-> IF Shared THEN "report" ELSE MarkerName(b)]
 
 Init == blocks = <<>> /\ cur = NewCur /\ sub = NoSub /\ phase = "build"
 
@@ -216,7 +225,7 @@ Cfg(bs) == [proms |-> <<>>, blocks |-> bs, enabled |-> <<>>, disabled |-> <<>>]
 Inv_C09 ==
   phase = "done" =>
     \A b \in DOMAIN blocks : \A i \in DOMAIN Corpus : \A c \in Range(Cmds) : \A st \in Range(AllStatesSeq) :
-       DocAccepts(ImplApplies(blocks[b], WithState(Corpus[i], st), c), blocks[b], WithState(Corpus[i], st), c)
+       ImplMarkerApplies(blocks, b, WithState(Corpus[i], st), c) = DocMarkerApplies(blocks, b, WithState(Corpus[i], st), c)
 
 \* documented deviation (named, never a violation): for `pint ci` the code's default state list also contains
 \* "removed" (config.CIStates) while the documentation lists added/modified/renamed. It is invisible to any check
@@ -227,7 +236,8 @@ Dev_CIDefaultHasRemoved == Range(DefaultMatchStates("ci")) \ Range(DocDefaultSta
 Inv_Shortcut ==
   phase = "done" =>
     \A b \in DOMAIN blocks : \A i \in {1, 8, 23, 38, 47, 58} : \A c \in Range(Cmds) : \A st \in {"noop", "added", "removed"} :
-       ImplApplies(blocks[b], WithState(Corpus[i], st), c) = ImplAppliesFull(Cfg(blocks), b, WithState(Corpus[i], st), c)
+       ImplMarkerApplies(blocks, b, WithState(Corpus[i], st), c)
+         = (\E x \in SameMarker(blocks, b) : ImplAppliesFull(Cfg(blocks), x, WithState(Corpus[i], st), c))
 
 \* GEN
 EmitCase == phase # "done" \/ PrintT(<<"CASE", ToJson([blocks |-> blocks])>>)
